@@ -595,7 +595,10 @@ ensures
         r.ty == t && final(context).errs() == old(context).errs() + undef_diag(*old(context), n, SemanticErrorKind::UndefVarError)
                 + cond1(!is_quantum_operand_type(t), SemanticErrorKind::IncompatibleTypesError)
     }),                                                                                                              //@C13:operand-must-be-quantum
-'''))
+''', ghost=[('indexed_identifier_to_asg_type(indexed_identifier, context);', 'after', 'let ghost mid_e = context.errs();'),
+            # an indexed operand must be an element / slice of a qubit register: anything else is reported, a qubit register is not
+            ('            asg::GateOperand::IndexedIdentifier(indexed_identifier).to_texpr(typ)', 'before',
+             'proof { assert(context.errs() == mid_e + cond1(!(typ is QubitArray), SemanticErrorKind::IncompatibleTypesError)); }     //@C13:indexed-operand-must-be-a-qubit-register')]))
     zov.setdefault('get_ast_designator_expression', {}).update(dict(ret='r', props=['C09'], closures=True,
         spec='ensures r == des_expr(arg),'))
     zov.setdefault('designator_to_asg', {}).update(dict(ret='r', props=['C09', 'C03'], spec='''
@@ -785,6 +788,11 @@ ensures
     // an expression that is present is always translated (never silently dropped)
     expr_maybe is Some ==> res is Some,                                                     //@C03,C06:expr-translated
     grows(*old(context), *final(context)),
+    // a cast expression becomes a Cast node whose type is its target type: the (const) type written in the cast
+    (expr_maybe is Some && expr_maybe->Some_0 is CastExpression) ==> res->Some_0.expression is Cast
+        && res->Some_0.ty == res->Some_0.expression->Cast_0.typ
+        && (expr_maybe->Some_0->CastExpression_0.sp_scalar_type() is Some ==>
+            res->Some_0.ty == type_of(expr_maybe->Some_0->CastExpression_0.sp_scalar_type()->Some_0.sp_kind(), written_width(res->Some_0.ty), true)),     //@C08,C06:cast-has-its-target-type
 '''))
     SEED = 'broadcast use sema_lemmas; proof { assert(ext(context.errs(), context.errs())); assert(ext_tr(context.trace(), context.trace())); assert(scoped(*context, *context)); }'
     HAS_CTX = re.compile(r'\bcontext\s*:\s*&mut\s+Context')
